@@ -326,7 +326,9 @@ fn gen_value(rng: &mut Rng, s: &Shape, v: &Vary) -> Value {
         Shape::Tuple(ts) => {
             let mut items: Vec<Value> = ts.iter().map(|t| gen_value(rng, t, v)).collect();
             if rng.below(16) < v.tuple_arity && !items.is_empty() {
-                items.pop();
+                // drop a random number of trailing elements (arity gaps of more than one between samples)
+                let drop = 1 + rng.usize(items.len());
+                items.truncate(items.len() - drop);
             }
             if rng.bool() {
                 sval::tuple(items)
@@ -422,6 +424,12 @@ fn nested_grid() -> Vec<(Vec<Value>, bool)> {
     g.push((vec![tuple(vec![i(1), i(2)]), tuple(vec![i(1), i(2), i(3)])], true));
     g.push((vec![tuple(vec![i(1), i(2), i(3)]), tuple(vec![i(1), i(2)])], true));
     g.push((vec![tuple_struct("T", vec![i(1)]), tuple(vec![none()])], true));
+    // arity gaps of more than one, shorter first / longer first / three lengths
+    g.push((vec![tuple(vec![i(1)]), tuple(vec![i(1), i(2), i(3), i(4)])], true));
+    g.push((vec![tuple(vec![i(1), i(2), i(3), i(4)]), tuple(vec![i(1)])], true));
+    g.push((vec![tuple(vec![]), tuple(vec![i(1), string("s"), i(3)])], true));
+    g.push((vec![tuple(vec![i(1)]), tuple(vec![i(1), i(2), i(3)]), tuple(vec![i(1), i(2), i(3), i(4), i(5), i(6)])], true));
+    g.push((vec![seq(vec![tuple(vec![i(1)])]), seq(vec![tuple(vec![i(1), i(2), i(3)])])], true));
     // enums, partially observed
     g.push((vec![unit_variant("E", 1, "B"), unit_variant("E", 1, "B")], true));
     g.push((vec![unit_variant("E", 0, "A"), unit_variant("E", 1, "B")], true));
